@@ -301,14 +301,23 @@ class Gen:
 
     def ifun_app(self, g, scope, depth):
         args = []
-        for pt in g["params"]:
-            if pt == "bool":
-                a = self.bool_expr(scope, min(depth, 1))
-            else:
-                a = self.arg_term(pt, scope, depth)
-            if a is None:
-                return None
-            args.append(a)
+        self._ifn_nesting = getattr(self, "_ifn_nesting", 0) + 1
+        try:
+            for pt in g["params"]:
+                if pt == "bool":
+                    if self._ifn_nesting > 2:
+                        a = ["b", self.b()]
+                    else:
+                        a = self.bool_expr(scope, min(depth, 1))
+                elif self._ifn_nesting > 2 and pt != "bool" and pt[0] == "int":
+                    a = ["i", self.i(-2, 3)]
+                else:
+                    a = self.arg_term(pt, scope, depth)
+                if a is None:
+                    return None
+                args.append(a)
+        finally:
+            self._ifn_nesting -= 1
         return ["ifn", g["name"]] + args
 
     def num_expr(self, scope, depth, want_int=False):
